@@ -225,12 +225,14 @@ VERIFIED_PAIR_CALLEES = {
 STATED_OUT_OF_SCOPE = ("generate::Generator::finalize_raw_internal",)
 
 
-def classify_writers(ctx, prog):
+def classify_writers(ctx, prog, scope=None, floor=14):
     """every function that writes blockhashK / len_blockhashK of a FuzzyHashData (directly or by &mut hand-off)
     is covered: whole-object definition, fresh+prefix, verified pair callee with like indices, or the stated exception"""
     doc(ctx)
     n = 0
     for f in prog.fns:
+        if not F.in_scope(f, scope):
+            continue
         ws = [w for w in F.census(f) if w.owner.endswith("hash::FuzzyHashData")]
         if not ws:
             continue
@@ -320,4 +322,4 @@ def classify_writers(ctx, prog):
                 ok_all = False
                 whys.append("blockhash%s: length stored but the array is neither wholly written nor fresh+prefix (writes: %s)" % (k, arr))
         ctx.ob(R, key, ok_all, "; ".join(whys)[:500], f.loc())
-    ctx.floor(R, n, 14, "functions writing block-hash storage")
+    ctx.floor(R, n, floor, "functions writing block-hash storage%s" % ("" if scope is None else " in scope"))
